@@ -736,7 +736,7 @@ func rulePartialSpine(c *Ctx, r *Report) {
 					f := x.Call.StaticCallee()
 					switch {
 					case f != nil && (f.Name() == "List" || f.Name() == "Cons" || f.Name() == "PartialList"):
-					case f != nil && len(x.Call.Args) > 0 && (f.Name() == "renamedCopy" || f.Name() == "simplify") && fromCheckedSpine(x.Call.Args[0]):
+					case f != nil && len(x.Call.Args) > 0 && (c.stableFuncName(f) == "renamedCopy" || c.stableFuncName(f) == "simplify") && fromCheckedSpine(x.Call.Args[0]):
 						// a copy of the spine of an existing partial: the copy of a proper list is a proper list
 					default:
 						fresh = false
@@ -744,7 +744,7 @@ func rulePartialSpine(c *Ctx, r *Report) {
 				case *ssa.Extract:
 					if cl, ok := x.Tuple.(*ssa.Call); ok {
 						f := cl.Call.StaticCallee()
-						if f != nil && len(cl.Call.Args) > 0 && (f.Name() == "renamedCopy" || f.Name() == "simplify") && fromCheckedSpine(cl.Call.Args[0]) {
+						if f != nil && len(cl.Call.Args) > 0 && (c.stableFuncName(f) == "renamedCopy" || c.stableFuncName(f) == "simplify") && fromCheckedSpine(cl.Call.Args[0]) {
 							break
 						}
 					}
